@@ -645,6 +645,11 @@ def cross_process_self_baseline(res):
         with open(os.path.join(d, "nonascii_messages.py"), "w", encoding="utf-8") as fh:
             fh.write("db_password = 'p\u00e4ssw\u00f6rd'  # gepr\u00fcft\ntoken = '\u043a\u043b\u044e\u0447'\nsecret = '\u79d8\u5bc6'\n")
         picked.append("nonascii_messages.py")
+        # ... and a message quoting a lone surrogate (an escape in a valid literal): the report holds it escaped, the next scan must still recognise the finding (found
+        # on the tree repaired by d2f48f8: the escaped baseline text never equalled the raw text of the fresh finding; repaired by b2b1ee8)
+        with open(os.path.join(d, "lone_surrogate.py"), "w") as fh:
+            fh.write("password = '\\ud800abc'\ntoken = 'x\\udfffy'\neval('1')\n")
+        picked.append("lone_surrogate.py")
         base = os.path.join(d, "base.json")
         rc, so, se = c08.cli_subprocess(["-r", ".", "-f", "json", "-o", base, "-q"], d, 0)
         try:
